@@ -96,6 +96,13 @@ type Driver struct {
 	OpIdx int
 	// probes
 	Probes map[string]int
+	// crash admissibility tracking (nil unless the engine needs it)
+	Adm *Adm
+	// FsckOn: run the fsck oracle at quiescent points
+	FsckOn bool
+	// GCErrFatal: a GC cycle returning an error is a violation (C11 only; an
+	// error is not a content change)
+	GCErrFatal bool
 }
 
 func NewDriver(p *Plan) *Driver {
